@@ -10,7 +10,10 @@ def tu_check(tu):
     r = setwiring.c_rules(tu)
     r["tables"] = common.tables_for_tu(tu, ENTRIES)
     es = errswallow.analyse_tu(tu)
-    r["findings"] = r["findings"] + es["findings"]
+    from ..rules import iterexhaust
+    ie = iterexhaust.analyse_tu(tu)
+    r["findings"] = r["findings"] + es["findings"] + ie["findings"]
+    r["stats"]["pyiter_sites"] = ie["stats"]["pyiter_sites"]
     r["stats"]["guarded_clears"] = es["stats"]["guarded_clears"]
     r["stats"]["clears"] = sum(es["stats"].values())
     return r
@@ -18,7 +21,7 @@ def tu_check(tu):
 
 def run(tier="quick", seed=0, use_cache=True):
     res = engine.Result("C10")
-    res.rules = ["SETOP-TABLE", "OP-WIRING", "ALIAS-GUARD", "FRESH-ONLY", "OPERAND-ADAPT", "INPLACE-MONOTONE", "INPLACE-OPERAND", "INPLACE-REPLACE", "ERR-SWALLOW"]
+    res.rules = ["SETOP-TABLE", "OP-WIRING", "ALIAS-GUARD", "FRESH-ONLY", "OPERAND-ADAPT", "INPLACE-MONOTONE", "INPLACE-OPERAND", "INPLACE-REPLACE", "ERR-SWALLOW", "ITER-EXHAUST"]
     res.exhaustive = True
     res.explanation = (
         "Decision-table extraction for difference / union / intersection: for "
@@ -39,7 +42,7 @@ def run(tier="quick", seed=0, use_cache=True):
         "toggling, C x22 and Python); the Python in-place operators consume "
         "their operand exactly once and never through a membership test "
         "(INPLACE-OPERAND: one-shot iterators, str); the rebuild step of C &= "
-        "dominates every success result (INPLACE-REPLACE); every PyErr_Clear() of the translation unit is dominated by a test of the exception's class whose failing edge cannot reach it, or is followed by the raising of another exception on every path, or belongs to an accepted protocol idiom (ERR-SWALLOW) - a cursor that clears unguarded ends the iteration silently and the operation returns a truncated result. Assumes container cursors yield strictly "
+        "dominates every success result (INPLACE-REPLACE); every PyErr_Clear() of the translation unit is dominated by a test of the exception's class whose failing edge cannot reach it, or is followed by the raising of another exception on every path, or belongs to an accepted protocol idiom (ERR-SWALLOW) - a cursor that clears unguarded ends the iteration silently and the operation returns a truncated result; after PyIter_Next produced an element of an operand a success return (other than a constant answer) is reachable only through another PyIter_Next that returned NULL (ITER-EXHAUST, on top of the exception-state dataflow) - an in-place operator that stops early applies itself to a prefix of its operand. Assumes container cursors yield strictly "
         "increasing keys (C01); result equality on concrete operands is not "
         "decided.")
     res.assumptions = ["container cursors yield strictly increasing keys (C01)",
@@ -57,6 +60,8 @@ def run(tier="quick", seed=0, use_cache=True):
     res.floor("success results of the &= slot functions (OO)", oo.get("inplace_and_results", 0), 2)
     res.count("INPLACE-REPLACE", sum(r["stats"].get("inplace_and_results", 0) for r in out.values()))
     res.floor("class-guarded PyErr_Clear sites (OO)", oo["guarded_clears"], 10)
+    res.floor("PyIter_Next sites (OO)", oo["pyiter_sites"], 8)
+    res.count("ITER-EXHAUST", sum(r["stats"]["pyiter_sites"] for r in out.values()))
     res.count("ERR-SWALLOW", sum(r["stats"]["clears"] for r in out.values()))
     res.floor("translation units", len(out), 22)
     res.count("OP-WIRING", sum(r["stats"]["slots"] for r in out.values()))
